@@ -73,7 +73,11 @@ class LeafNode(TreeNode):
 
     def edits(self, node: TreeNode) -> Edit:
         if isinstance(node, LeafNode):
-            return Match(self, node, levenshtein_distance(str(self.object), str(node.object)))
+            cost = levenshtein_distance(str(self.object), str(node.object))
+            if cost == 0 and self != node:
+                # the objects differ even though their string representations do not, e.g. 1 versus "1"
+                cost = 1
+            return Match(self, node, cost)
         elif isinstance(node, ContainerNode):
             return Replace(self, node)
 
